@@ -135,6 +135,8 @@ QString regexText(const QJsonObject &d)
     if (rx == "any") return ".*";
     if (rx == "alt") return lit + "|" + lit2;
     if (rx == "icontains") return "(?i)" + lit;
+    if (rx == "backref") return "([ab])\\1";            // a doubled 'a' or 'b' (numbered back-reference)
+    if (rx == "group") return "(" + lit + ")+$";         // a capturing group with a quantifier
     return lit;
 }
 
